@@ -69,7 +69,7 @@ Definition reader_ok (ls : list bline) (C : Circuit) : bool :=
 Definition names_okb (g : circuit) : bool := forallb ident (elements (dom g)).
 Definition round_guard (C : Circuit) : bool :=
   lint_cleanb C && bool_decide (c_bbs C = ∅) && negb (bool_decide (inputs (c_g C) = ∅))
-  && bool_decide (of_type (c_g C) (is_ty CX) = ∅) && names_okb (c_g C) && closedb (c_g C) && acyclicb (c_g C).
+  && bool_decide (of_type (c_g C) (λ t, is_ty CX t || is_ty BbIn t || is_ty BbOut t) = ∅) && names_okb (c_g C) && closedb (c_g C) && acyclicb (c_g C).
 Definition round_ok (C C' : Circuit) : bool :=
   let g := c_g C in let g' := c_g C' in
   bool_decide (inputs g' = inputs g) && bool_decide (outputs g' = outputs g)
